@@ -66,6 +66,114 @@ func assignsTo(f *vtrans.File, fd *ast.FuncDecl, lhs string) bool {
 	return found
 }
 
+// containsCall: does the node contain a call whose function text ends with `suffix`?
+func containsCall(f *vtrans.File, n ast.Node, suffix string) bool {
+	found := false
+	ast.Inspect(n, func(x ast.Node) bool {
+		if c, ok := x.(*ast.CallExpr); ok && strings.HasSuffix(src(f, c.Fun), suffix) {
+			found = true
+		}
+		return true
+	})
+	return found
+}
+
+func containsReturn(n ast.Node) bool {
+	found := false
+	ast.Inspect(n, func(x ast.Node) bool {
+		switch x.(type) {
+		case *ast.ReturnStmt, *ast.BranchStmt:
+			found = true
+		case *ast.FuncLit:
+			return false
+		}
+		return true
+	})
+	return found
+}
+
+// browseVisitOrder: in Browse / BrowseAll, the callback handed to db.Idx.browse (or the one DB method it delegates the
+// visit to) calls the walk function and then — unconditionally, with no return or branch in between — both
+// aply_browsing_flags and freerec; only after that may the walk result decide whether the browse goes on. true = that
+// shape; false = the flags / the release are conditional or come after a possible return; error = unknown shape.
+func browseVisitOrder(f *vtrans.File, name string) (bool, error) {
+	fd, err := f.Func("DB", name)
+	if err != nil {
+		return false, err
+	}
+	var lit *ast.FuncLit
+	ast.Inspect(fd.Body, func(n ast.Node) bool {
+		if c, ok := n.(*ast.CallExpr); ok && strings.HasSuffix(src(f, c.Fun), "Idx.browse") && len(c.Args) == 1 {
+			if l, ok := c.Args[0].(*ast.FuncLit); ok {
+				lit = l
+			}
+		}
+		return true
+	})
+	if lit == nil {
+		return false, fmt.Errorf("%s: no function literal handed to db.Idx.browse", name)
+	}
+	body := lit.Body
+	if !containsCall(f, body, "walk") {
+		// one level of delegation: a DB method that receives the walk function
+		var callee *ast.FuncDecl
+		ast.Inspect(body, func(n ast.Node) bool {
+			if c, ok := n.(*ast.CallExpr); ok {
+				if sel, ok := c.Fun.(*ast.SelectorExpr); ok && src(f, sel.X) == "db" {
+					for _, a := range c.Args {
+						if src(f, a) == "walk" {
+							if d, e := f.Func("DB", sel.Sel.Name); e == nil {
+								callee = d
+							}
+						}
+					}
+				}
+			}
+			return true
+		})
+		if callee == nil {
+			return false, fmt.Errorf("%s: the callback neither calls the walk function nor hands it to a DB method", name)
+		}
+		// what precedes the delegation in the callback may skip the record, nothing else
+		body = callee.Body
+	}
+	iW, iA, iF := -1, -1, -1
+	for i, st := range body.List {
+		if iW < 0 && containsCall(f, st, "walk") {
+			iW = i
+		}
+		if iA < 0 && containsCall(f, st, ".aply_browsing_flags") {
+			iA = i
+		}
+		if iF < 0 && containsCall(f, st, ".freerec") {
+			iF = i
+		}
+	}
+	if iW < 0 || iA < 0 || iF < 0 {
+		return false, fmt.Errorf("%s: walk / aply_browsing_flags / freerec not all found at the top level of the visit (%d %d %d)", name, iW, iA, iF)
+	}
+	last := iA
+	if iF > last {
+		last = iF
+	}
+	if iA < iW || iF < iW {
+		return false, nil
+	}
+	for i := iW; i <= last; i++ {
+		st := body.List[i]
+		if i == iA || i == iF {
+			if _, ok := st.(*ast.ExprStmt); !ok { // inside an if / switch: conditional
+				return false, nil
+			}
+			continue
+		}
+		if containsReturn(st) {
+			return false, nil
+		}
+	}
+	return true, nil
+}
+
 func main() {
 	db, err := vtrans.Parse("lib/others/qdb/db.go")
 	if err != nil {
@@ -148,6 +256,17 @@ func main() {
 	fmt.Fprintf(&sb, "/-- loadlog discards a log whose header cannot be read (`er != nil ||`) -/\ndef loadlogRejectsHeaderError : Bool := %s\n", hdr)
 	fmt.Fprintf(&sb, "/-- defrag() resets db.PendingRecords -/\ndef defragClearsPending : Bool := %v\n", defragClears)
 	facts += 3
+	// Browse / BrowseAll: flags and release come before the BR_ABORT decision
+	order := true
+	for _, name := range []string{"Browse", "BrowseAll"} {
+		ok, err := browseVisitOrder(db, name)
+		if err != nil {
+			die(err)
+		}
+		order = order && ok
+		facts++
+	}
+	fmt.Fprintf(&sb, "/-- Browse and BrowseAll apply the walk result's flags and release the record (aply_browsing_flags, freerec)\n    for every visited record before BR_ABORT can end the browse -/\ndef browseAppliesBeforeAbort : Bool := %v\n", order)
 	sb.WriteString("\nend GocoinV.Gen.QdbFacts\n")
 	out := vlib.Root() + "/lean/GocoinV/Gen/QdbFacts.lean"
 	os.Remove(out)
